@@ -4,6 +4,8 @@
    (every float is a rational).  A Spectrum-valued efficiency enters as its sampled vector (the
    sampling is the business of C13/C14; the tie exercises it through the implementation). *)
 From LV Require Import Model.Detector Proofs.DetectorP.
+From LV Require Model.Spectrum.
+From LV Require Import Model.DetectorQE Proofs.DetectorQEP.
 Local Open Scope Z_scope.
 
 (* ---------------------------------------------------------------- (a) collect_charge *)
@@ -208,6 +210,159 @@ Theorem C16_adc_zero_capacity_example :
   exists dn, adc (@mkArr QcS 1 1 (fun _ _ => Q2Qc 5)) (G0 (Q2Qc 1)) (Some (Q2Qc 0)) true = Ok (true, dn) /\ get dn 0 0 = 0.
 Proof. exact adc_zero_capacity_example. Qed.
 Print Assumptions C16_adc_zero_capacity_example.
+
+(* ---------------------------------------------------------------- (e) Spectrum-valued efficiency *)
+(* qe_asarray's Spectrum branch composed with the collection (Model/DetectorQE.v; Spectrum.sample is the
+   model of C13).  [wv] = the cube's wavelengths as numbers in unit [u].  At every pixel the charge is the sum
+   over the slices of photons times the efficiency the table denotes at that slice's wavelength: the value of
+   the piecewise-linear interpolant of the table expressed in unit u, 0 outside the table. *)
+Theorem C16_spectrum_efficiency_spec :
+  forall (img : imgrep QcS) (wv : list Qc) (u : Spectrum.wunit) (s : Spectrum.spectrum),
+  Spectrum.wf s -> cnk (as_cube img) = Z.of_nat (length wv) ->
+  exists a q, collect_charge_any img wv u (QEspec s) = Ok a /\
+    nr a = cnr (as_cube img) /\ nc a = cnc (as_cube img) /\ length q = length wv /\
+    (forall k, (k < length wv)%nat -> qe_at s u (nth k wv (Q2Qc 0)) (nth k q (Q2Qc 0))) /\
+    (forall i j, get a i j = @sumZ QcS (Z.of_nat (length wv))
+                               (fun k => (cget (as_cube img) k i j * nth (Z.to_nat k) q (Q2Qc 0))%Qc)).
+Proof. exact collect_spectrum_spec. Qed.
+Print Assumptions C16_spectrum_efficiency_spec.
+
+(* "in any wavelength unit", the cube side: the same cube with its wavelengths given in another unit u'
+   (numbers multiplied by the unit factor) collects exactly the same image, errors included *)
+Theorem C16_spectrum_any_cube_unit :
+  forall (img : imgrep QcS) (wv : list Qc) (u u' : Spectrum.wunit) (s : Spectrum.spectrum),
+  Spectrum.vu s = Spectrum.VNone ->
+  collect_charge_any img (map (fun x => (x * Spectrum.ufac u u')%Qc) wv) u' (QEspec s)
+  = collect_charge_any img wv u (QEspec s).
+Proof. exact collect_any_unit. Qed.
+Print Assumptions C16_spectrum_any_cube_unit.
+
+(* "in any wavelength unit", the table side: the same efficiency tabulated in another unit t *)
+Theorem C16_spectrum_any_table_unit :
+  forall (img : imgrep QcS) (wv : list Qc) (u t : Spectrum.wunit) (s : Spectrum.spectrum),
+  Spectrum.vu s = Spectrum.VNone ->
+  collect_charge_any img wv u (QEspec (Spectrum.to_wu s t)) = collect_charge_any img wv u (QEspec s).
+Proof. exact collect_retabulated. Qed.
+Print Assumptions C16_spectrum_any_table_unit.
+
+Theorem C16_bayer_spectrum_any_cube_unit :
+  forall (img : imgrep QcS) (wv : list Qc) (u u' : Spectrum.wunit) (sr sg sb : Spectrum.spectrum) (pat : list Z) (os : Z),
+  Spectrum.vu sr = Spectrum.VNone -> Spectrum.vu sg = Spectrum.VNone -> Spectrum.vu sb = Spectrum.VNone ->
+  collect_charge_bayer_channels_any img (map (fun x => (x * Spectrum.ufac u u')%Qc) wv) u' (QEspec sr) (QEspec sg) (QEspec sb) pat os
+  = collect_charge_bayer_channels_any img wv u (QEspec sr) (QEspec sg) (QEspec sb) pat os.
+Proof. exact bayer_any_unit. Qed.
+Print Assumptions C16_bayer_spectrum_any_cube_unit.
+
+(* the colour filter array with three spectra: every sub-pixel collects with the sampled efficiencies of the
+   spectrum of its own colour (qlist_of ch qr qg qb = the list of channel ch) *)
+Theorem C16_bayer_spectrum_spec :
+  forall (img : imgrep QcS) (wv : list Qc) (u : Spectrum.wunit) (sr sg sb : Spectrum.spectrum)
+         (pat : list Z) (p : pattern) (os a b : Z),
+  Spectrum.wf sr -> Spectrum.wf sg -> Spectrum.wf sb -> cnk (as_cube img) = Z.of_nat (length wv) ->
+  format_bayer pat = Ok p -> 1 <= pk p -> 1 <= os -> 0 <= a -> 0 <= b ->
+  cnr (as_cube img) = pk p * os * a -> cnc (as_cube img) = pk p * os * b ->
+  exists o qr qg qb, collect_charge_bayer_any img wv u (QEspec sr) (QEspec sg) (QEspec sb) pat os = Ok o /\
+    nr o = cnr (as_cube img) /\ nc o = cnc (as_cube img) /\
+    (length qr = length wv /\ length qg = length wv /\ length qb = length wv) /\
+    (forall k, (k < length wv)%nat ->
+       qe_at sr u (nth k wv (Q2Qc 0)) (nth k qr (Q2Qc 0)) /\ qe_at sg u (nth k wv (Q2Qc 0)) (nth k qg (Q2Qc 0)) /\
+       qe_at sb u (nth k wv (Q2Qc 0)) (nth k qb (Q2Qc 0))) /\
+    (forall i j, 0 <= i < cnr (as_cube img) -> 0 <= j < cnc (as_cube img) ->
+       get o i j = @sumZ QcS (Z.of_nat (length wv)) (fun k => (cget (as_cube img) k i j *
+         nth (Z.to_nat k) (qlist_of (pch p ((i / os) mod pk p) ((j / os) mod pk p)) qr qg qb) (Q2Qc 0))%Qc)).
+Proof. exact bayer_spectrum_spec. Qed.
+Print Assumptions C16_bayer_spectrum_spec.
+
+(* a table given exactly on the cube's wavelengths (end points included), the cube in any unit u: the
+   spectrum acts as the vector of its tabulated values - no slice is lost, none is interpolated *)
+Theorem C16_spectrum_on_cube_wavelengths :
+  forall (img : imgrep QcS) (u : Spectrum.wunit) (s : Spectrum.spectrum),
+  Spectrum.wf s -> Spectrum.vu s = Spectrum.VNone ->
+  collect_charge_any img (map (fun x => (x * Spectrum.ufac (Spectrum.wu s) u)%Qc) (Spectrum.wave s)) u (QEspec s)
+  = collect_charge img (Z.of_nat (length (Spectrum.wave s))) (QVec (vec_of_list QcS (Spectrum.value s))).
+Proof. exact collect_on_table. Qed.
+Print Assumptions C16_spectrum_on_cube_wavelengths.
+
+(* slices whose wavelengths all lie outside the table collect nothing (fill value 0), whatever the numbers *)
+Theorem C16_spectrum_outside_table_collects_nothing :
+  forall (img : imgrep QcS) (wv : list Qc) (u : Spectrum.wunit) (s : Spectrum.spectrum),
+  cnk (as_cube img) = Z.of_nat (length wv) ->
+  (forall x, In x wv -> (x < Spectrum.wmin (Spectrum.wave (Spectrum.conv s u)))%Qc \/
+                        (Spectrum.wmax (Spectrum.wave (Spectrum.conv s u)) < x)%Qc) ->
+  exists a, collect_charge_any img wv u (QEspec s) = Ok a /\ nr a = cnr (as_cube img) /\ nc a = cnc (as_cube img) /\
+            forall i j, get a i j = Q2Qc 0.
+Proof. exact collect_outside_table. Qed.
+Print Assumptions C16_spectrum_outside_table_collects_nothing.
+
+(* ---------------------------------------------------------------- (f) refusals of the collection entry points *)
+(* `assert qe.size == wave.size` *)
+Theorem C16_collect_vector_length_refused :
+  forall (S : Scalar) (img : imgrep S) (nw : Z) (v : vec S), vn v <> nw ->
+  collect_charge img nw (QVec v) = Err AssertionErr.
+Proof. exact collect_vector_length_refused. Qed.
+Print Assumptions C16_collect_vector_length_refused.
+
+(* a cube whose number of slices differs from the number of wavelengths (neither being 1): ValueError *)
+Theorem C16_collect_slice_count_refused :
+  forall (S : Scalar) (img : imgrep S) (nw : Z) (q : qerep S) (v : vec S),
+  qe_asarray q nw = Ok v -> cnk (as_cube img) <> nw -> cnk (as_cube img) <> 1 -> nw <> 1 ->
+  collect_charge img nw q = Err ValueError.
+Proof. exact collect_slice_count_refused. Qed.
+Print Assumptions C16_collect_slice_count_refused.
+
+(* collect_charge_bayer looks at the efficiencies first (red, green, blue), then at the pattern string:
+   the first failure in that order is the one raised *)
+Theorem C16_bayer_refusal_order :
+  forall (S : Scalar) (img : imgrep S) (nw : Z) (qr qg qb : qerep S) (pat : list Z) (os : Z),
+  (forall e, qe_asarray qr nw = Err e -> collect_charge_bayer_channels img nw qr qg qb pat os = Err e) /\
+  (forall vr e, qe_asarray qr nw = Ok vr -> qe_asarray qg nw = Err e ->
+     collect_charge_bayer_channels img nw qr qg qb pat os = Err e) /\
+  (forall vr vg e, qe_asarray qr nw = Ok vr -> qe_asarray qg nw = Ok vg -> qe_asarray qb nw = Err e ->
+     collect_charge_bayer_channels img nw qr qg qb pat os = Err e) /\
+  (forall vr vg vb e, qe_asarray qr nw = Ok vr -> qe_asarray qg nw = Ok vg -> qe_asarray qb nw = Ok vb ->
+     format_bayer pat = Err e -> collect_charge_bayer_channels img nw qr qg qb pat os = Err e).
+Proof. exact bayer_refusal_order. Qed.
+Print Assumptions C16_bayer_refusal_order.
+
+(* a frame that does not consist of whole tiles of pattern x oversample (mr x mc = the size of the mosaic that
+   np.tile + np.repeat build; no axis of length 1): the product with the mosaic is refused with ValueError *)
+Theorem C16_bayer_frame_not_tiled_refused :
+  forall (S : Scalar) (img : imgrep S) (nw : Z) (qr qg qb : qerep S) (vr vg vb : vec S) (pat : list Z) (p : pattern) (os : Z),
+  cnk (as_cube img) = nw ->
+  qe_asarray qr nw = Ok vr -> qe_asarray qg nw = Ok vg -> qe_asarray qb nw = Ok vb ->
+  format_bayer pat = Ok p -> 1 <= pk p -> 1 <= os ->
+  let c := as_cube img in
+  let mr := pk p * (cnr c / os / pk p) * os in let mc := pk p * (cnc c / os / pk p) * os in
+  (cnr c <> mr /\ cnr c <> 1 /\ mr <> 1) \/ (cnc c <> mc /\ cnc c <> 1 /\ mc <> 1) ->
+  collect_charge_bayer_channels img nw qr qg qb pat os = Err ValueError.
+Proof. exact bayer_frame_not_tiled_refused. Qed.
+Print Assumptions C16_bayer_frame_not_tiled_refused.
+
+(* non-vacuity of (e): an efficiency tabulated at 1/2, 3/4, 1 um, a two-pixel cube at 500, 750, 1000 nm:
+   well-formed, on the cube's wavelengths, pixel (0,1) collects 4/4 + 5/2 + 6*1 *)
+Example C16_spectrum_nonvacuous :
+  let s := Spectrum.mkS [Spectrum.qq 1 2; Spectrum.qq 3 4; Spectrum.qq 1 1] [Spectrum.qq 1 4; Spectrum.qq 1 2; Spectrum.qq 1 1]
+                        Spectrum.UUm Spectrum.VNone in
+  let c := @mkCube QcS 3 1 2 (fun k i j => Q2Qc (inject_Z (1 + k + 3 * j))) in
+  let wv := [Spectrum.qq 500 1; Spectrum.qq 750 1; Spectrum.qq 1000 1] in
+  Spectrum.wf s /\ wv = map (fun x => (x * Spectrum.ufac (Spectrum.wu s) Spectrum.UNm)%Qc) (Spectrum.wave s) /\
+  exists a, collect_charge_any (Img3 c) wv Spectrum.UNm (QEspec s) = Ok a /\ get a 0 1 = Spectrum.qq 19 2 /\
+            get a 0 0 = Spectrum.qq 17 4.
+Proof.
+  cbv zeta. split; [|split].
+  - repeat split; try discriminate; apply Qclt_alt; reflexivity.
+  - cbn [map Spectrum.wave Spectrum.wu].
+    repeat (apply f_equal2; [apply Qc_is_canon; vm_compute; reflexivity|]). reflexivity.
+  - eexists. split; [reflexivity|]. split; apply Qc_is_canon; vm_compute; reflexivity.
+Qed.
+
+(* non-vacuity of (f): a 3x3 frame under a 2x2 pattern; a two-slice cube with three wavelengths *)
+Example C16_refusals_nonvacuous :
+  collect_charge_bayer_channels (Img3 (@mkCube ZS 1 3 3 (fun _ i j => i + j))) 1 (@QScalar ZS 1) (@QScalar ZS 2) (@QScalar ZS 3) [0; 1; 1; 2] 1
+    = Err ValueError /\
+  collect_charge (Img3 (@mkCube ZS 2 2 2 (fun _ i j => i + j))) 3 (@QScalar ZS 1) = Err ValueError /\
+  collect_charge (Img3 (@mkCube ZS 2 2 2 (fun _ i j => i + j))) 2 (QVec (@mkVec ZS 3 (fun k => k))) = Err AssertionErr.
+Proof. repeat split. Qed.
 
 (* non-vacuity: a 2x2 'RGGB' pattern at oversample 3 on a 6x12 two-wavelength cube satisfies the
    hypotheses of C16_bayer_spec, and sub-pixel (4,7) (native pixel (1,2), pattern cell (1,0) = G)
